@@ -185,6 +185,30 @@ def neCode (s a : ICell) : Bool :=
   let compare := if one then true else compare
   if both then false else compare
 
+/-- what `==` / `!=` return: a Python bool for incompatible operands, else one Boolean per element -/
+inductive CmpRes where
+  | whole (b : Bool)
+  | elems (r : Arr Bool)
+
+/-- qube.py `_compatible_arg`, same-class branch: `self._item_ != arg._item_` → None (the item shape is numerator AND
+    denominator axes); `Qube.broadcast(self, arg)` raising ValueError → None -/
+def compatCode (itemS itemA : List Nat) (ss sa : Shape) : Bool :=
+  if itemS != itemA then false else (bcast ss sa).isSome
+
+/-- qube.py `__eq__`: `if arg is None: return False`, else the element-wise comparison -/
+def eqTop (itemS itemA : List Nat) (s a : Arr ICell) : CmpRes :=
+  if !compatCode itemS itemA s.shape a.shape then .whole false
+  else match Arr.map2 eqCode s a with
+    | some r => .elems r
+    | none => .whole false
+
+/-- qube.py `__ne__`: `if arg is None: return True` -/
+def neTop (itemS itemA : List Nat) (s a : Arr ICell) : CmpRes :=
+  if !compatCode itemS itemA s.shape a.shape then .whole true
+  else match Arr.map2 neCode s a with
+    | some r => .elems r
+    | none => .whole true
+
 inductive Ord where | lt | le | gt | ge
   deriving DecidableEq, Repr
 
